@@ -67,6 +67,22 @@ def parseUser (ext : Ext) (P : Prog) (args : List Str) : ParseOut :=
       | (some e, warns) => { st := s, err := some e, warnings := warns }
       | (none, warns) => { st := s, remaining := some s.rem, warnings := warns }
 
+inductive SetValueOut
+  | ok | notFound | error (e : PErr)
+deriving DecidableEq, Repr, Inhabited
+
+/-- `gopt.SetValue(name, values...)` on the `*GetOpt` of node `n`: the entry `name` of that node's table (a
+name or an alias) goes through `Save`; `Called` / `CalledAs` are not touched; an undeclared name is
+`ErrorNotFound`.  (The lower-casing flag a map option keeps from its last command-line match is not modelled:
+the harness does not call `SetValue` on map options.) -/
+def setValue (ext : Ext) (P : Prog) (n : Nat) (name : Str) (vals : List Str) : Prog × SetValueOut :=
+  match lookup name (P.node n).opts with
+  | none => (P, .notFound)
+  | some oid =>
+    match save ext false (P.opt oid) vals with
+    | .ok o' => (P.setOpt oid o', .ok)
+    | .error e => (P, .error e)
+
 inductive DispatchOut
   | helpCalled (text : Str)                 -- help written to Writer, ErrorHelpCalled
   | missingRequired (e : UErr)
@@ -89,8 +105,8 @@ def dispatch (ext : Ext) (s : PState) (remaining : List Str) : DispatchOut :=
         match remaining with
         | [] => .helpCalled (helpOutput ext P parent [])
         | a :: _ =>
-          match (P.node parent).cmds.find? fun kv => (P.node kv.2).name == a with
-          | some kv => .helpCalled (helpOutput ext P kv.2 [])
+          match lookup a (P.node parent).cmds with
+          | some c => .helpCalled (helpOutput ext P c [])
           | none => .noHelpTopic a
       else match fin.fn with
         | some f => .ran f s.cur remaining
